@@ -174,8 +174,10 @@ def sensitivity(argv):
             shutil.rmtree(scratch, ignore_errors=True)
     missed = [r for r in results if not r["caught"] and r.get("expect", "caught") == "caught"]
     flaky = [r for r in results if r["caught"] and not (r["replay_reproduces"] and r["replay_clean_on_unchanged_tree"])]
-    print(f"sensitivity: {len(results)} mutants, {len(results) - len(missed)} caught, {len(missed)} missed, "
-          f"{len(flaky)} caught without a clean replay, {time.time() - t0:.0f}s")
+    required = [r for r in results if r.get("expect", "caught") == "caught"]
+    print(f"sensitivity: {len(results)} patches, {len(required)} expected to be caught: {len(required) - len(missed)} caught, "
+          f"{len(missed)} missed, {len(flaky)} caught without a clean replay; {len(results) - len(required)} tagged otherwise "
+          f"(equivalent / outside-domain / neutralised-by-fix / missed-capacity), {time.time() - t0:.0f}s")
     with open(os.path.join(HERE, "evidence", "sensitivity.json"), "w") as f:
         json.dump({"results": results}, f, indent=1)
     return 0 if not missed and not flaky else 1
